@@ -137,11 +137,9 @@ def gTurn (law : Law) (run : Nat) (st : GState) (l : Int) : GState :=
             else { st with eMinLF := min st.eMinLF p.strain }
   { st with prevLoad := l }
 
-/-- Both passes: `turns1`, `turns2` are the reversal sequences handed to pass 1 and pass 2
-(the running "previous load" restarts at 0 in each pass, as in the guideline's bookkeeping of the
-running strain extremes). -/
+/-- Both passes: `turns1`, `turns2` are the reversal sequences handed to pass 1 and pass 2. -/
 def guideline (law : Law) (turns1 turns2 : List Int) : GState :=
   let st := turns1.foldl (gTurn law 1) {}
-  turns2.foldl (gTurn law 2) { st with prevLoad := 0 }
+  turns2.foldl (gTurn law 2) st
 
 end PylifeVerif.HCM.Spec
